@@ -26,17 +26,17 @@ def _describe_grid(grid):
         pos = [[p, d] for p, d in ax.coords.items()]
         n = None
         for p, d in ax.coords.items():
-            L = grid._ds.sizes.get(d)
+            L = getattr(grid, "_ds", None).sizes.get(d) if getattr(grid, "_ds", None) is not None else None
             if L is not None:
                 n = {"center": L, "left": L, "right": L, "inner": L + 1, "outer": L - 1}[p]
                 break
         axes.append({"name": str(name), "n": int(n or 0), "pos": pos})
-    shifts = [[str(n), [[f, t] for f, t in ax._default_shifts.items()]] for n, ax in grid.axes.items()]
-    ctor = {"periodic": {"k": "m", "v": [[str(n), bool(ax._periodic)] for n, ax in grid.axes.items()]},
+    shifts = [[str(n), [[f, t] for f, t in ax.default_shifts.items()]] for n, ax in grid.axes.items()]
+    ctor = {"periodic": {"k": "m", "v": [[str(n), ax.boundary == "periodic"] for n, ax in grid.axes.items()]},
             "boundary": {"k": "m", "v": [[str(n), ax.boundary] for n, ax in grid.axes.items()]},
             "fill_value": {"k": "none"}, "default_shifts": {"k": "m", "v": shifts}}
     coords = [{"name": str(c), "dims": [str(d) for d in v.dims]} for c, v in grid._ds.coords.items()]
-    return {"axes": axes, "extra": [], "ctor": ctor, "has_faces": grid._face_connections is not None}, coords
+    return {"axes": axes, "extra": [], "ctor": ctor, "has_faces": getattr(grid, "_face_connections", None) is not None}, coords
 
 
 def _wrap(op, orig):
